@@ -4,7 +4,7 @@
 # Uses the evaluation worktree /work/try of /verif (synced to main first) and a scratch worktree of /repo.
 set -u
 PATCH=$(realpath "$1"); shift
-TRY=/work/try
+TRY=${TRY:-/work/try}
 SCR=/tmp/try_repo_$$
 git -C "$TRY" checkout -q -- . ; git -C "$TRY" clean -fdq evidence corpus 2>/dev/null
 git -C "$TRY" merge -q main -m sync >/dev/null 2>&1 || { echo "try worktree cannot be synced"; exit 2; }
